@@ -2,7 +2,7 @@
    for the known classes on the model. *)
 Require Import KV.Sparql.Base KV.Sparql.Syntax KV.Sparql.MuProofs KV.Sparql.JoinProofs KV.Sparql.Algebra KV.Sparql.Engine
         KV.Sparql.Lowering KV.Sparql.PlanEquiv KV.Sparql.Sem KV.Sparql.Bridge KV.Sparql.Classes KV.Sparql.ScanProofs
-        KV.Sparql.BgpProofs KV.Sparql.HashProofs KV.Sparql.SemProofs KV.Sparql.ExecLemmas KV.Sparql.BridgeProofs
+        KV.Sparql.BgpProofs KV.Sparql.HashProofs KV.Sparql.SemProofs KV.Sparql.ExecLemmas KV.Sparql.BridgeProofs KV.Sparql.ModifierProofs KV.Sparql.AggProofs KV.Sparql.BridgeMain
         KV.Sparql.IdemProofs KV.Sparql.Typing KV.Sparql.TypingProofs KV.Sparql.GroupProofs KV.Sparql.EngineProofs KV.Sparql.PlanProofs.
 Require Import Permutation.
 
@@ -128,6 +128,15 @@ Definition wq_ok2 := mkq (PGroup [PBgp [(TV 0%N, TC (E "p1"), TV 1%N)];
 Lemma example_ok2 :
   proved_fragment wq_ok2 = true /\ noerr (sel_where (q_sel wq_ok2)) = true /\ typed (mk_view wds1 [] []) (sel_where (q_sel wq_ok2)) = true /\
   wimpl wq_ok2 = true /\ wspec wds1 wq_ok2 = [[(0%N, E "s1"); (1%N, E "s2"); (2%N, "5"%string); (5%N, "kx"%string)]].
+Proof. vm_compute. repeat split; reflexivity. Qed.
+
+(* ... and a GROUP BY sub-select with SUM and MIN in the legal shape *)
+Definition wq_ok3 := mkq (PGroup [PBgp [(TV 0%N, TC (E "p1"), TV 1%N)];
+                                  PSub (Sel false (Some [PVar 0%N; PAgg ASum 2%N 10%N; PAgg AMin 2%N 11%N])
+                                            (PGroup [PBgp [(TV 0%N, TC (E "p3"), TV 2%N)]]) [0%N] [(10%N, true)] None)]).
+Lemma example_ok3 :
+  proved_fragment wq_ok3 = true /\ noerr (sel_where (q_sel wq_ok3)) = true /\ typed (mk_view wds1 [] []) (sel_where (q_sel wq_ok3)) = true /\
+  wimpl wq_ok3 = true /\ wspec wds1 wq_ok3 = [[(0%N, E "s1"); (1%N, E "s2"); (10%N, "5"%string); (11%N, "5"%string)]].
 Proof. vm_compute. repeat split; reflexivity. Qed.
 
 (* the pieces behind them, as statements about the algebra *)
